@@ -47,8 +47,17 @@ def _encode_response(
     here, before a single byte has been written.
     """
     body_bytes = b""
-    if isinstance(status, bool) or not isinstance(status, int) or not 10 <= status <= 69:
-        status, meta, body = 40, "Server error: handler returned an invalid status", None
+    code = None
+    if isinstance(status, int) and not isinstance(status, bool):
+        try:
+            # A plain int: a subclass (an Enum with int mixed in) may format as
+            # something other than its digits
+            code = int(status)
+        except Exception:
+            code = None
+    if code is None or not 10 <= code <= 69:
+        code, meta, body = 40, "Server error: handler returned an invalid status", None
+    status = code
     if 20 <= status <= 29:
         try:
             if not body:
